@@ -17,7 +17,7 @@ RULE = ("a data set is partitioned into chunks, each chunk histogrammed over the
         "sum(), HistogramCollection.sum and (1D) the dask facade; every observed addition is checked interval-wise by the per-call monitor, "
         "the combined histogram against the exact model of all data, two different summation orders against each other, operands for "
         "immutability; incompatible / other-dimension / non-histogram operands must be refused; non-trivial = >= 3 chunks and (>= 1 "
-        "chunk with missed values or an adaptive extension on both sides); distinct by hash of (bins, chunks, order) Plus bins a few ulp of their edges wide (whole-bin shifts must be refused; adaptive chunks at 4e15), and `case_untracked`: an operand that does not keep its missed values makes the under / overflow of the sum unknown in either order.")
+        "chunk with missed values or an adaptive extension on both sides); distinct by hash of (bins, chunks, order) Plus bins a few ulp of their edges wide (whole-bin shifts must be refused; adaptive chunks at 4e15), and `case_untracked`: an operand that does not keep its missed values makes the under / overflow of the sum unknown in either order. `case_untracked_adaptive`: the same through the adaptive branch (adaptive histogram plus a fixed-width one on its grid that dropped values uncounted).")
 ASSUMPTIONS = [
     "dyadic weights: all sums exact and order-independent, compared with ==; a decimal-weight class (0.1, 0.2, ...) is compared within rounding",
     "bins are the same bins only if their edges are equal: operands on neighbouring bins far from zero (offsets 1e5 .. 1.7e9) are generated and judged",
